@@ -220,6 +220,33 @@ def jax_odir(param):
             "state": core.digest((st.nit, st.key, st.sample_state, st.minimization_state)), "minisanity": core.digest(ms)}
 
 
+def jax_defaults(param, alt=False):
+    """JAX driver with the library's DEFAULT solver options (nothing nested is specified), or - alt=True - with
+    explicitly different nested options.  Run back to back in one process, the second must not see the first."""
+    import jax
+    jax.config.update("jax_enable_x64", True)
+    import jax.numpy as jnp
+    from jax import random as jr
+    import nifty.re as jft
+    harness.quiet()
+
+    def fwd(x):
+        return x["alpha"] * jnp.exp(0.3 * x["beta"]) + x["gamma"]
+    dom = {k: jft.ShapeWithDtype((4,), float) for k in ("alpha", "beta", "gamma")}
+    m = jft.Model(fwd, domain=dom)
+    lh = jft.Gaussian(jnp.array([0.3, -1.2, 2.0, 0.5]) + 0.01 * param, noise_std_inv=lambda x: x / 0.5).amend(m)
+    k1, k2 = jr.split(jr.PRNGKey(param))
+    pos = jft.Vector(jft.random_like(k1, m.domain)) * 0.1
+    kw = {}
+    if alt:
+        kw = dict(draw_linear_kwargs=dict(cg_name=None, cg_kwargs=dict(maxiter=2, miniter=1)),
+                  nonlinearly_update_kwargs=dict(minimize_kwargs=dict(name=None, maxiter=1, xtol=1e-2,
+                                                                      cg_kwargs=dict(name=None, maxiter=2))),
+                  kl_kwargs=dict(minimize_kwargs=dict(name=None, maxiter=1, xtol=1e-2, cg_kwargs=dict(name=None, maxiter=2))))
+    s, st = jft.optimize_kl(lh, pos, key=k2, n_total_iterations=2, n_samples=2, sample_mode="nonlinear_resample", **kw)
+    return {"pos": core.digest(s.pos), "samples": core.digest(s._samples), "key": core.digest(st.key)}
+
+
 def draws(param):
     import numpy as np
     import nifty.cl as ift
@@ -250,6 +277,7 @@ WORK = {
     "cl_odir_all": lambda p: cl_odir(p, "all"),
     "jax_cfm": jax_cfm,
     "jax_odir": jax_odir,
+    "jax_defaults": jax_defaults,
     "draws": draws,
 }
 
@@ -259,8 +287,13 @@ def main():
     harness.quiet()
     wl, param = sys.argv[1], int(sys.argv[2])
     first = WORK[wl](param)
-    # unrelated work in between, then the same computation again in this process
+    # other work in between - unrelated draws AND a differently configured run of the same driver family (other
+    # solver options, other sample mode / options), which must not leave anything behind - then the same computation again
     other = WORK["draws"](param + 17)
+    if wl.startswith("jax"):
+        jax_defaults(param + 5, alt=True)
+    elif wl.startswith("cl_"):
+        cl_run(param + 5, wl != "cl_geovi", 1 if wl != "cl_map" else 0)
     gc.collect()
     _ = {str(i): i for i in range(1000)}
     second = WORK[wl](param)
